@@ -298,7 +298,7 @@ def encode_plain_set(msgs):
     return b"".join(encode_entry(m.offset, encode_message(m.magic, 0, m.key, m.value, m.timestamp)) for m in msgs)
 
 
-def encode_wrapper(msgs, magic, codec=GZIP, wrapper_ts=None, inner=None, rel0=0):
+def encode_wrapper(msgs, magic, codec=GZIP, wrapper_ts=None, inner=None, rel0=0, inner_attrs=0):
     """One compressed wrapper entry holding ``msgs`` (absolute offsets, ascending).
 
     Format 0: inner offsets are the absolute offsets.  Format 1: inner offsets are 0..n-1 relative to the
@@ -310,7 +310,7 @@ def encode_wrapper(msgs, magic, codec=GZIP, wrapper_ts=None, inner=None, rel0=0)
         for i, m in enumerate(msgs):
             # format 1: relative to the *original* first message of the wrapper, which compaction may have removed (rel0 > 0)
             off = m.offset if magic == 0 else m.offset - msgs[0].offset + rel0
-            chunks.append(encode_entry(off, encode_message(magic, 0, m.key, m.value, m.timestamp)))
+            chunks.append(encode_entry(off, encode_message(magic, inner_attrs, m.key, m.value, m.timestamp)))
         inner = b"".join(chunks)
     wrapper = encode_message(magic, codec, None, _gz(inner), wrapper_ts)
     return encode_entry(msgs[-1].offset, wrapper)
